@@ -321,6 +321,8 @@ where
 
         let start_states = RE_WS
             .split(declaration_parameters)
+            // Names are separated by one or more blanks: two blanks in a row are not an empty name.
+            .filter(|name| !name.is_empty())
             .map(|name| {
                 let off = name.as_ptr() as usize - self.src.as_ptr() as usize;
                 i = off + name.len();
